@@ -353,7 +353,8 @@ class DecoderAI:
             src = _tags(argv[0], "bytes:") + _tags(argv[0], "str:")
             if src:
                 k = _key_of(src[0])
-                self.op(f"json-loads:{k}", e, ["JSONDecodeError", "RecursionError"], f"json.loads of the peer's {k} (invalid JSON; valid JSON nested deeper than the recursion limit)")
+                self.op(f"json-loads:{k}", e, ["JSONDecodeError", "ValueError", "RecursionError"],
+                        f"json.loads of the peer's {k} (invalid JSON -> JSONDecodeError; an integer literal beyond the int/str digit limit -> plain ValueError; nesting beyond the recursion limit -> RecursionError)")
                 return frozenset({f"json:{k}"})
             return OTHER
         if isinstance(f, ast.Attribute):
@@ -927,7 +928,7 @@ def run(ctx: Ctx) -> None:
     ctx.not_decided = ("'exactly once' under arbitrary interleavings of emits from several threads; value fidelity of extra fields beyond being carried (they are stringified); "
                        "an absent (rather than malformed) metadata key; the EXCEPTION branch of the decoder (C07).")
     ctx.assumptions += [
-        "partial operations counted on peer data: strict bytes.decode (UnicodeDecodeError), json.loads (JSONDecodeError, RecursionError), attribute/subscript/iteration on un-narrowed JSON "
+        "partial operations counted on peer data: strict bytes.decode (UnicodeDecodeError), json.loads (JSONDecodeError, plain ValueError for over-long integer literals, RecursionError), attribute/subscript/iteration on un-narrowed JSON "
         "(AttributeError/TypeError), Enum(value) (ValueError), f(**peer_keys) into named parameters (TypeError), int()/float() of peer text",
         "JSON object keys are str; a callee that cannot be resolved is assumed to have no named parameters",
         "list.append / iteration / clear preserve insertion order",
